@@ -8,7 +8,6 @@ import (
 	"io"
 	"net"
 	"net/http"
-	"os"
 	"runtime/debug"
 	"sort"
 	"strings"
@@ -119,9 +118,6 @@ func (g *rig) exec(query string) (res execResult) {
 		}
 	}()
 	res.Body = wr.String()
-	if len(res.Body) > 300000 && os.Getenv("C20_DEBUG") != "" {
-		fmt.Fprintf(os.Stderr, "BIG %d bytes: %s\n", len(res.Body), query)
-	}
 	res.RPCs, res.RPCErrors = g.conn.take()
 	return res
 }
